@@ -149,11 +149,18 @@ fn hash_int_function(
         format!("{}", hash)
     };
 
-    let short = if result.len() > length {
+    let mut short = if result.len() > length {
         &result[..length]
     } else {
         &result
     };
+
+    // Optional upper bound (e.g. u32::MAX for version numbers): drop trailing digits until it fits
+    if let Some(max_value) = args.get("max_value").and_then(|v| v.as_u64()) {
+        while short.len() > 1 && short.parse::<u64>().is_ok_and(|n| n > max_value) {
+            short = &short[..short.len() - 1];
+        }
+    }
 
     Ok(Value::String(short.to_string()))
 }
